@@ -14,7 +14,8 @@ REQUIRED_MONITORS = ["markers@stab_plot(function)", "markers@cluster_plot(functi
                      "markers@pLSCF.plot_stab", "markers@pLSCF.plot_cluster", "curves@FDD.plot_CMIF", "marker-order accepted by mpe"]
 ALL_STATES = ["hide_poles=True", "hide_poles=False", "with covariance error bars", "freqlim given", "step=1", "step=2", "step=3", "more rows than orders", "more orders than rows",
               "empty column", "no stable pole", "nSv=all", "nSv<all"]
-REQUIRED_STATES = ["hide_poles=True", "hide_poles=False", "with covariance error bars", "freqlim given", "step=2", "more rows than orders", "more orders than rows", "nSv=all", "nSv<all", "column-major tables"]
+REQUIRED_STATES = ["hide_poles=True", "hide_poles=False", "with covariance error bars", "freqlim given", "step=2", "more rows than orders", "more orders than rows", "nSv=all", "nSv<all", "column-major tables",
+                   "earlier figures left open", "49 or more pole slots"]
 RULE = ("random pole / label tables up to 60 orders, non-square, any NaN pattern, labels 0/1, step 1..3 at function level, freqlim, with/without covariance; results "
         "of real SSIcov / pLSCF / FDD runs through the classes' plot methods; the data of the matplotlib artists on the returned axes (Agg) are read back: green "
         "'o' Line2D = multiset {(Fn[i,j], j*step): Lab=1}, red PathCollection = {(Fn[i,j], j*step): Lab=0}, cluster diagram with Xi as ordinate; CMIF "
@@ -87,6 +88,8 @@ def judge_axes(ctx, tag, sig, ax, Fn, Lab, Y, hide):
 
 def make_tables(rng):
     nr = int(rng.integers(1, 20))
+    if rng.random() < 0.25:
+        nr = int(rng.choice([49, 50, 59, 60, 98, 103, 107, 120]))  # as many pole slots as the highest order (SSI), twice as many, pLSCF sizes
     no = int(rng.integers(2, 61))
     if rng.random() < 0.1:
         nr, no = (1, int(rng.integers(2, 10))) if rng.random() < 0.5 else (int(rng.integers(2, 10)), 2)
@@ -118,6 +121,19 @@ def run_tables(ctx, rng):
     if cov is not None:
         cov[mask] = np.nan
     Fc, Lc = Fn.copy(), Lab.copy()
+    keep_open = rng.random() < 0.5  # an interactive session leaves earlier figures open: every diagram is drawn from its own table only
+    if keep_open:
+        ctx.state("earlier figures left open")
+        real_close, plt.close = plt.close, (lambda *a, **k: None)
+    try:
+        _run_tables_body(ctx, rng, P_, plt, Fn, Xi, Lab, mask, Fc, Lc, step, hide, freqlim, cov, nr, no)
+    finally:
+        if keep_open:
+            plt.close = real_close
+        plt.close("all")
+
+
+def _run_tables_body(ctx, rng, P_, plt, Fn, Xi, Lab, mask, Fc, Lc, step, hide, freqlim, cov, nr, no):
     fig, ax = P_.stab_plot(Fn, Lab, step, (no - 1) * step, ordmin=int(rng.integers(0, no)) * step, freqlim=freqlim, hide_poles=hide, Fn_cov=cov)
     judge_axes(ctx, "markers@stab_plot(function)", "stab", ax, Fc, Lc, lambda i, j: j * step, hide)
     ctx.check(np.array_equal(Fn, Fc, equal_nan=True) and np.array_equal(Lab, Lc), "stab:inputs_modified", "stab_plot modified its inputs")
@@ -133,6 +149,15 @@ def run_tables(ctx, rng):
     judge_axes(ctx, "markers@cluster_plot(function)", "cluster", ax, Fc, Lc, lambda i, j: Xc[i, j], hide)
     ctx.check(np.array_equal(Fn, Fc, equal_nan=True) and np.array_equal(Xi, Xc, equal_nan=True) and np.array_equal(Lab, Lc), "cluster:inputs_modified", "cluster_plot modified its inputs")
     plt.close(fig)
+    # history: a second cluster diagram of ANOTHER table / other options
+    Fn2 = np.where(np.isfinite(Fn), Fn * 0.5 + 1.0, np.nan)
+    Lab2 = np.where(np.isfinite(Fn), 1 - Lab, 0)
+    Lab2[:, 0] = 0
+    fig, ax = P_.cluster_plot(Fn2, Xi, Lab2, ordmin=0, freqlim=freqlim, hide_poles=not hide)
+    judge_axes(ctx, "markers@cluster_plot(function)", "cluster_second_diagram", ax, Fn2, Lab2, lambda i, j: Xc[i, j], not hide)
+    plt.close(fig)
+    if nr >= 49:
+        ctx.state("49 or more pole slots")
     if Fn.flags.f_contiguous and not Fn.flags.c_contiguous:
         ctx.state("column-major tables")
     fin = np.isfinite(Fn)
@@ -234,7 +259,11 @@ def run_classes(ctx, rng):
                 ctx.check(len(got) == 1 and got[0] == x, f"{nm}:marker_order_not_accepted_by_mpe", lambda: f"{nm}: marker (f={x}, order={o}) but mpe(order={o}) returns {got}")
         fig, ax = alg.plot_cluster(freqlim=freqlim, hide_poles=hide)
         judge_axes(ctx, f"markers@{nm}.plot_cluster", f"{nm}_cluster", ax, Fn, Lab, lambda i, j: Xi[i, j], hide)
+        # the other variant while the first figure is still open
+        fig2, ax2 = alg.plot_cluster(freqlim=freqlim, hide_poles=not hide)
+        judge_axes(ctx, f"markers@{nm}.plot_cluster", f"{nm}_cluster_second_diagram", ax2, Fn, Lab, lambda i, j: Xi[i, j], not hide)
         plt.close(fig)
+        plt.close(fig2)
         ctx.nontrivial((nm, hide, freqlim))
         if nm == "SSIcov":
             ctx.state("with covariance error bars")
